@@ -1,6 +1,6 @@
 import PGV.Proofs.Lin
 import PGV.Spec.LRU
-import PGV.Props.Facts
+import PGV.Props.Facts.Lock
 
 /-!
 # C10 — the LRU cache is safe and linearizable under concurrent use  (partial)
